@@ -5,6 +5,9 @@
 package main
 
 import (
+	"github.com/go-netty/go-netty/codec/frame"
+	"github.com/go-netty/go-netty/codec/format"
+	"encoding/binary"
 	"bytes"
 	"context"
 	"errors"
@@ -449,6 +452,57 @@ func streamOps(rng *rand.Rand, _ bool) {
 	bs.Shutdown()
 }
 
+// several goroutines write through the shipped codecs of one channel: whatever state a codec keeps is shared by them
+func codecOps(rng *rand.Rand, async bool) {
+	f := mock.NewFactory()
+	chf := netty.NewChannel()
+	if async {
+		chf = netty.NewAsyncWriteChannel(8, true)
+	}
+	which := rng.Intn(5)
+	init := func(ch netty.Channel) {
+		switch which {
+		case 0:
+			ch.Pipeline().AddLast(frame.VarintLengthFieldCodec(1<<20), format.TextCodec())
+		case 1:
+			ch.Pipeline().AddLast(frame.LengthFieldCodec(binary.BigEndian, 1<<20, 0, 2, 0, 2), format.TextCodec())
+		case 2:
+			ch.Pipeline().AddLast(frame.DelimiterCodec(1<<20, "\n", true), format.TextCodec())
+		case 3:
+			ch.Pipeline().AddLast(frame.VarintLengthFieldCodec(1<<20), format.JSONCodec(true, false))
+		default:
+			ch.Pipeline().AddLast(frame.LengthFieldPrepender(binary.LittleEndian, 4, 0, false))
+		}
+		ch.Pipeline().AddLast(sink{})
+	}
+	bs := netty.NewBootstrap(netty.WithTransport(f), netty.WithChannel(chf), netty.WithClientInitializer(init), netty.WithChildInitializer(init))
+	ch, err := bs.Connect("mock://c:1")
+	if err != nil {
+		panic(err)
+	}
+	var wg sync.WaitGroup
+	for g := 0; g < 3; g++ {
+		wg.Add(1)
+		go func(g int) {
+			defer wg.Done()
+			for i := 0; i < 30; i++ {
+				switch which {
+				case 3:
+					ch.Write(map[string]interface{}{"g": g, "i": i})
+				case 4:
+					ch.Write(bytes.Repeat([]byte{byte('a' + g)}, 10+100*g))
+				default:
+					ch.Write(strings.Repeat(string(rune('a'+g)), 10+100*g))
+				}
+				op()
+			}
+		}(g)
+	}
+	wg.Wait()
+	ch.Close(nil)
+	bs.Shutdown()
+}
+
 var scenarios = []struct {
 	name  string
 	f     func(*rand.Rand, bool)
@@ -462,6 +516,8 @@ var scenarios = []struct {
 	{"channel-buffered", bufferedOps, true, 2},
 	{"channel-sendfail", sendFailOps, true, 4},
 	{"channel-stream", streamOps, true, 4},
+	{"codecs-async", codecOps, true, 2},
+	{"codecs-sync", codecOps, false, 2},
 	{"idle", idleOps, true, 150},
 	{"pools", poolOps, false, 10},
 }
